@@ -259,6 +259,45 @@ def gen(rng, tier):
                               "kind": "symmetric-renamed"})
                 cases.append({"k": "iso", "m1": _rename(rng, fam), "m2": _rename(rng, fam), "props": props,
                               "kind": "symmetric-renamed2"})
+    # two roles of one predication with the same target (the isograph merges them into one edge
+    # label): renamed copies with the roles listed in another order must stay isomorphic, moving
+    # either role to another variable must not (choices from a generator of their own)
+    import copy
+    import random
+    lrng = random.Random("c06-shared-target-" + tier)
+    made = 0
+    while made < (40 if tier == "quick" else 400):
+        base = mc.gen_wf_mrs(lrng, max_nouns=2, shuffle_vars=lrng.random() < 0.5)
+        if len(base["rels"]) > 5:
+            continue
+        cands = [(i, a) for i, r in enumerate(base["rels"]) for a in r["args"]
+                 if a[0] not in ("ARG0", "CARG", "RSTR", "BODY") and a[1][0] in "xei"]
+        if not cands:
+            continue
+        i, a = lrng.choice(cands)
+        used = set(x[0] for x in base["rels"][i]["args"])
+        free = [r for r in ("ARG1", "ARG2", "ARG3", "ARG4") if r not in used]
+        if not free:
+            continue
+        made += 1
+        role2 = lrng.choice(free)
+        m = copy.deepcopy(base)
+        m["rels"][i]["args"].append([role2, a[1]])
+        m_rev = copy.deepcopy(m)
+        m_rev["rels"][i]["args"].reverse()
+        props = lrng.random() < 0.7
+        cases.append({"k": "iso", "m1": m, "m2": _rename(lrng, m_rev), "props": props, "kind": "shared-target-renamed"})
+        cases.append({"k": "iso", "m1": m, "m2": m_rev, "props": props, "kind": "shared-target-reordered"})
+        others = sorted(set(v for v, _ in m["vars"] if v[0] == a[1][0] and v != a[1]))
+        if others:
+            for which in (a[0], role2):
+                m2 = copy.deepcopy(m)
+                for x in m2["rels"][i]["args"]:
+                    if x[0] == which:
+                        x[1] = lrng.choice(others)
+                b = _rename(lrng, m2) if lrng.random() < 0.5 else m2
+                cases.append({"k": "iso", "m1": m, "m2": b, "props": props, "kind": "shared-target-moved"})
+                cases.append({"k": "iso", "m1": b, "m2": m, "props": props, "kind": "shared-target-moved-sym"})
     for _ in range(n // 6):
         pool = [mc.gen_wf_mrs(rng, max_nouns=1) for _ in range(3)]
         pool = [p for p in pool if len(p["rels"]) <= 5]
